@@ -2151,12 +2151,15 @@ f_objects (void)
   int display_hidden = 0, t_sz, i, j, n, num_arg = st_num_arg;
   svalue_t *v;
 
-  if (!num_arg)
-    func = 0;
-  else if (sp->type == T_FUNCTION)
-    f = sp->u.fp;
-  else
-    func = sp->u.string;
+  svalue_t *arg = sp - num_arg + 1;	/* objects (void | string | function, void | object) */
+  object_t *target = current_object;
+
+  if (num_arg && arg->type == T_FUNCTION)
+    f = arg->u.fp;
+  else if (num_arg && arg->type == T_STRING)
+    func = arg->u.string;
+  if (num_arg > 1 && arg[1].type == T_OBJECT)
+    target = arg[1].u.ob;		/* the object whose function `func' is called */
 
   if (!(tmp = (object_t **) new_string ((t_sz = 1000) * sizeof (object_t *),
                                         "TMP: objects: tmp")))
@@ -2204,8 +2207,8 @@ f_objects (void)
             {
               FREE_MSTR ((char *) tmp);
               sp--;
-              free_svalue (sp, "f_objects");
-              *sp = const0;
+              pop_n_elems (num_arg);
+              *(++sp) = const0;
               return;
             }
           if (v->type == T_NUMBER && !v->u.number)
@@ -2214,16 +2217,16 @@ f_objects (void)
       else if (func)
         {
           /* as in call_efun_callback(): apply() itself does not refuse a destructed object */
-          if (current_object->flags & O_DESTRUCTED)
+          if (target->flags & O_DESTRUCTED)
             error ("*Object destructed during efun callback.");
           push_object (ob);
-          v = apply (func, current_object, 1, ORIGIN_EFUN);
+          v = apply (func, target, 1, ORIGIN_EFUN);
           if (!v)
             {
               FREE_MSTR ((char *) tmp);
               sp--;
-              free_svalue (sp, "f_objects");
-              *sp = const0;
+              pop_n_elems (num_arg);
+              *(++sp) = const0;
               return;
             }
           if ((v->type == T_NUMBER) && !v->u.number)
